@@ -20,6 +20,8 @@ pub struct Scen {
 }
 
 pub struct PropDef {
+    /// Optional Miri scenario (engine D5) run after the batch: (scenario name, quick seeds, thorough seeds).
+    pub miri: Option<(&'static str, u64, u64)>,
     pub id: &'static str,
     pub level: &'static str,
     pub scens: Vec<Scen>,
@@ -365,6 +367,27 @@ pub fn run_property(def: &PropDef, cfg: &BatchCfg) -> i32 {
         println!("violation class {} scenario {} run {} (choices {} -> {} after {} re-executions): {}", vkey, scen.name, f.idx, f.choices.len(), min.len(), tries, mv.detail);
         println!("VIOLATION property={} replay={}", def.id, path.display());
     }
+    // D5: Miri's seeded scheduler (C13 / C14 thread clauses)
+    let mut miri_json = None;
+    if let Some((scenario, q, t)) = def.miri {
+        if std::env::var("VERIF_NO_MIRI").is_err() {
+            let seeds = if cfg.tier == Tier::Quick { q } else { t };
+            let m = crate::miri::run(&cfg.verif_dir, scenario, seeds, cfg.seed);
+            if let Some((seed, rate, msg)) = &m.failing {
+                violations += 1;
+                exit = 1;
+                let path = cfg.verif_dir.join("replays").join(format!("{}-miri-{}-{}.json", def.id, scenario, seed));
+                let j = J::obj().set("property", J::s(def.id)).set("engine", J::s("miri")).set("scenario", J::s(scenario))
+                    .set("seed", J::i(*seed)).set("preemption_rate", J::s(rate)).set("detail", J::s(msg));
+                write_file(&path, &j.to_string_pretty());
+                println!("violation class miri:{scenario} seed {seed} rate {rate}: {msg}");
+                println!("VIOLATION property={} replay={}", def.id, path.display());
+            }
+            if let Some(s) = &m.skipped { println!("note: Miri extra skipped: {s}"); }
+            println!("miri: scenario={scenario} seeds={} wall={:.1}s failing={}", m.seeds, m.wall_s, m.failing.is_some());
+            miri_json = Some(crate::miri::to_json(scenario, &m));
+        }
+    }
     known_hits.sort();
     known_hits.dedup();
     for k in &known_hits {
@@ -396,7 +419,8 @@ pub fn run_property(def: &PropDef, cfg: &BatchCfg) -> i32 {
         .set("real_components", J::Arr(def.real.iter().map(|s| J::s(s)).collect()))
         .set("stub_components", J::Arr(def.stub.iter().map(|s| J::s(s)).collect()))
         .set("known_findings_hit", J::Arr(known_hits.iter().map(|s| J::s(s)).collect()))
-        .set("planned_runs", J::i(total));
+        .set("planned_runs", J::i(total))
+        .set("miri_thread_schedules", miri_json.unwrap_or(J::Null));
     let ev = J::obj()
         .set("property_id", J::s(def.id))
         .set("tier", J::s(cfg.tier.name()))
@@ -427,6 +451,19 @@ pub fn replay_file(defs: &[PropDef], path: &Path) -> i32 {
     };
     let prop = j.get("property").and_then(J::as_str).unwrap_or("");
     let scen_name = j.get("scenario").and_then(J::as_str).unwrap_or("");
+    if j.get("engine").and_then(J::as_str) == Some("miri") {
+        let seed = j.get("seed").and_then(J::as_u64).unwrap_or(0);
+        let rate = j.get("preemption_rate").and_then(J::as_str).unwrap_or("0.1").to_string();
+        let dir = path.parent().and_then(|p| p.parent()).unwrap_or(Path::new("."));
+        let (fails, msg) = crate::miri::run_single(dir, scen_name, seed, &rate);
+        println!("miri replay: scenario={scen_name} seed={seed} rate={rate}: {msg}");
+        if fails {
+            println!("VIOLATION property={prop} replay={}", path.display());
+            return 1;
+        }
+        eprintln!("replay mismatch: the Miri schedule did not fail");
+        return 2;
+    }
     let Some(def) = defs.iter().find(|d| d.id == prop) else { eprintln!("harness error: unknown property {prop}"); return 2; };
     let Some(scen) = def.scens.iter().find(|s| s.name == scen_name) else { eprintln!("harness error: unknown scenario {scen_name}"); return 2; };
     let choices: Vec<u32> = j.get("choices").and_then(J::as_arr).map(|a| a.iter().filter_map(J::as_u64).map(|x| x as u32).collect()).unwrap_or_default();
